@@ -195,9 +195,13 @@ CHECKS["C18"] = dict(
          "no server message reaches handlers, pending requests or the message id; and for the send machine (sendMessage, "
          "sendMessages, runConnection teardown, carried message) as a transition system: in every reachable state of "
          "every interleaving every non-handshake message was written to a connection whose handshake had completed at "
-         "that moment, and only written requests are acknowledged (props/C18.v, 7 theorems). Correspondence: real "
+         "that moment, and only written requests are acknowledged; acceptance is per connection (model SendAuth: the "
+         "accepted flag across connections with the handler goroutine handling accepts at any moment, also after the "
+         "connection they came on was torn down): accepted / data delivered only if an accept for the then-current "
+         "session was handled since the current connection started (props/C18.v, 10 theorems). Correspondence: real "
          "handleMessage with really forged AcceptRegister messages (7 kinds, real keys), and real runConnection / "
-         "sendMessages / sendMessage / Ready over an in-memory connection with slow close.",
+         "sendMessages / sendMessage / Ready / handleMessage over an in-memory connection with slow close, with accepts "
+         "made for the current, an earlier or no session.",
     note=_CLIENT_NOTE + " ECDSA unforgeability and key derivation are idealised; the send-machine scenarios are "
          "deterministic schedules with a 25 ms settle time, the theorems cover all interleavings.",
     technique="Coq invariant proofs (symbolic crypto; transition system of the send path) + model/implementation correspondence + trace monitors",
@@ -231,13 +235,15 @@ CHECKS["C01"] = dict(
          "found yet' the canonical settling run reaches a quiescent world whose chain from the start block equals the "
          "peer's best chain, with reply size, window and time-outs symbolic; the fully quantified statement is REFUTED "
          "for out-of-order delivery by a proved witness (recorded finding). Worlds with messages in flight across a "
-         "peer event are covered by the correspondence / monitor exploration only (monitor codes 102/106: none in 3016 "
-         "thorough histories). Correspondence: real handler map, ProcessBlock, check, CheckTimeouts, Reset, new Node "
+         "peer event are covered by the correspondence / monitor exploration only (monitor codes 102/106 on in-order "
+         "histories - in order judged from the queue lengths, position k mod length: none in 3238 thorough histories "
+         "after fix fd6e285). Correspondence: real handler map, ProcessBlock, check, CheckTimeouts, Reset, new Node "
          "against a Go transcription of Peer.v reacting to the node's real outgoing messages; every scenario ends with a settle.",
     note="Trusted: Coq kernel; hand-written Peer.v validated against its Go transcription and the real node by "
          "correspondence; Sync.v as for C02; real TCP, timers and goroutine fairness are not in the model (time-outs are "
-         "model events). Known findings (reorder / duplicate only, impossible on one TCP connection): "
-         "converge:c01:107:settle, converge:c01:108:check, converge:c01:108:settle.",
+         "model events). Known findings (reorder / duplicate only, impossible on one TCP connection), keyed by the "
+         "disorder their history needs: converge:c01:107:settle:inv-before-headers-known, ...:dup-headers-new, "
+         "converge:c01:108:check:<the corpus history's steps>; a stall that needs another disorder is reported.",
     technique="Coq invariant proof (safety, all interleavings) + partial convergence proof by a settling run + refutation witness + model/implementation correspondence + trace monitor",
     ref="5/C01 and 11")
 
